@@ -41,11 +41,12 @@ def repo_dir():
     return os.environ.get("VERIF_REPO_DIR", "/repo")
 
 
-def build_hv():
-    """(re)build the harness binary from the working tree of the repository under test, hooks enabled."""
+def build_hv(cmd="hv"):
+    """(re)build one harness binary (harness/cmd/<cmd>) from the working tree of the repository under test,
+    hooks enabled. Each family has its own command so that families build independently."""
     os.makedirs(BIN, exist_ok=True)
     rd = repo_dir()
-    hdir, out = HARNESS, os.path.join(BIN, "hv")
+    hdir, out = HARNESS, os.path.join(BIN, cmd)
     if rd != "/repo":
         tag = hashlib.sha1(rd.encode()).hexdigest()[:8]
         hdir = os.path.join(WORK, "harness_" + tag)
@@ -53,12 +54,17 @@ def build_hv():
         shutil.copytree(HARNESS, hdir)
         gm = open(os.path.join(hdir, "go.mod")).read().replace("=> /repo", "=> " + rd)
         open(os.path.join(hdir, "go.mod"), "w").write(gm)
-        out = os.path.join(BIN, "hv_" + tag)
-    shutil.copy(os.path.join(rd, "go.sum"), os.path.join(hdir, "go.sum"))
-    rc, o, dt = sh(["go", "build", "-tags", "verif", "-o", out, "./cmd/hv"], cwd=hdir, env=GOENV,
+        out = os.path.join(BIN, cmd + "_" + tag)
+    want = open(os.path.join(rd, "go.sum")).read()
+    gs = os.path.join(hdir, "go.sum")
+    if not os.path.exists(gs) or open(gs).read() != want:
+        open(gs, "w").write(want)
+    tmp = "%s.tmp%d" % (out, os.getpid())
+    rc, o, dt = sh(["go", "build", "-tags", "verif", "-o", tmp, "./cmd/" + cmd], cwd=hdir, env=GOENV,
                    timeout=1500, check=False)
     if rc != 0:
         raise Inconclusive("harness does not build against %s:\n%s" % (rd, o[-6000:]))
+    os.replace(tmp, out)      # atomic: a concurrently running copy keeps its old inode
     return out
 
 
